@@ -35,6 +35,7 @@ def check(model, R, tier):
     check_reject(model, R, ops)
     check_operators(model, R)
     check_iter(model, R)
+    check_squeeze(model, R)
     check_ctor(model, R)
     check_key(model, R)
     return dict(
@@ -305,3 +306,56 @@ def check_key(model, R):
         uses = [n for n in ast.walk(f.node) if isinstance(n, ast.Name) and n.id == p and isinstance(n.ctx, ast.Load)]
         R.ob('C05.KEY', q, 'key parameter %s: %d use(s), rebinds %s' % (p, len(uses), rebinds), bool(uses) and not rebinds,
              'converting the key (e.g. list -> tuple) changes how NumPy interprets it (a list of ints is a gather along axis 0, a tuple is one index per dimension)', f.loc)
+
+
+# ------------------------------------------------------------------------------------------------ SQUEEZE
+def check_squeeze(model, R):
+    """squeeze(dim) removes exactly the listed dims of size 1 (a listed dim of another size is kept, the others are still removed): the kernel is
+    partially evaluated on concrete shapes / dim arguments and the axis set handed to np.squeeze is compared"""
+    from sa.peval import PE, Opaque
+    from sa.poly import P
+    R.rule('C05.SQUEEZE', 'squeeze removes exactly the listed dims of size 1 (None: all of them); listed dims of another size are kept without blocking the others', floor=8)
+    f = model.func('synapgrad.cpu_ops.squeeze_forward')
+    cases = [((1, 3, 1), None), ((1, 3, 1), 0), ((1, 3, 1), 1), ((1, 3, 1), -1), ((1, 3, 1), (0, 1)), ((1, 3, 1), (0, 2)), ((1, 3, 1), (1,)), ((1, 3, 1), [0, -1]), ((1, 3, 1), (1, 2)), ((), None), ((2, 1), (-1, 0))]
+    for shape, axis in cases:
+        rec = []
+
+        def hook(pe, name, e, args, kw, env, func, depth):
+            if name == 'numpy.squeeze' and args:
+                rec.append(kw.get('axis', args[1] if len(args) > 1 else None))
+                return Opaque('squeezed')
+            return NotImplemented
+        try:
+            outs = PE(model, atoms={'a.shape': tuple(shape), 'len(a.shape)': len(shape), 'a.ndim': len(shape)}, call_hook=hook, atoms_not_none=True).paths(f, {'a': P.atom('a'), 'axis': axis})
+        except Incomplete as u:
+            R.incomplete_at('C05.SQUEEZE', f.qualname, '%s, dim=%r: %s' % (shape, axis, u))
+            continue
+        rank = len(shape)
+        dims = range(rank) if axis is None else ([axis] if isinstance(axis, int) else list(axis))
+        want = {d % rank for d in dims if shape[d] == 1} if rank else set()
+        ok = len(outs) == 1 and outs[0].kind == 'return'
+        got = None
+        if ok:
+            if not rec:
+                got = set()
+                ok = _atomname(outs[0].value) == 'a'
+            elif len(rec) == 1:
+                ax = rec[0]
+                if ax is None:
+                    got = {d for d in range(rank) if shape[d] == 1}
+                elif isinstance(ax, int) and not isinstance(ax, bool):
+                    got = {ax % rank} if rank and shape[ax] == 1 else None       # np.squeeze raises on a non-unit axis
+                elif isinstance(ax, (tuple, list)) and all(isinstance(x, int) for x in ax):
+                    got = {x % rank for x in ax} if all(shape[x] == 1 for x in ax) else None
+                ok = isinstance(outs[0].value, Opaque)
+            ok = ok and got is not None and got == want
+        R.ob('C05.SQUEEZE', f.qualname, 'shape %s, dim=%r -> removes %s' % (shape, axis, sorted(got) if got is not None else rec), ok, 'documented: removes dims %s' % sorted(want), f.loc)
+
+
+def _atomname(v):
+    from sa.poly import P
+    if isinstance(v, P) and len(v.t) == 1:
+        (m, c), = v.t.items()
+        if c == 1 and len(m) == 1 and m[0][1] == 1:
+            return m[0][0]
+    return None
